@@ -66,7 +66,7 @@ class FirstOrderFD(BaseGradientApproximator):
             step = full(n_perturbations, step)
 
         self._function_kwargs = kwargs
-        functions = [self._wrap_function] * (n_perturbations + 1)
+        functions = [self._wrap_function for _ in range(n_perturbations + 1)]
         parallel_execution = CallableParallelExecution(functions, **self._parallel_args)
 
         perturbated_inputs = [
@@ -193,7 +193,7 @@ class FirstOrderFD(BaseGradientApproximator):
         comp_step = self._get_opt_step
         if self._parallel:
             self._function_kwargs = kwargs
-            functions = [self._wrap_function] * (n_dim * 2 + 1)
+            functions = [self._wrap_function for _ in range(n_dim * 2 + 1)]
             parallel_execution = CallableParallelExecution(
                 functions, **self._parallel_args
             )
